@@ -663,6 +663,10 @@ class Proto:
         if self.is_state_payload(pl):
             self.problems.append('write into the payload of the queue state in %s' % fn.name)
             return [st]
+        if pl['p'] and pl['p'][-1]['k'] == 'field' and pl['p'][-1]['n'] == 'waker' and 'SchedulerFutureResult' in clean_ty(pl['p'][-1].get('bty', '')):
+            e = fn.expr_of_rvalue(rv)
+            if e[0] == 'agg' and e[2] == 'core::option::Option::Some':
+                st = st._replace(act=st.act | 4)     # this poll registered the current task's waker
         if pl['p']:
             # writes through other places: a tracked local may be overwritten via a reference; keep it simple:
             l = self._root_local(fn, pl)
@@ -671,6 +675,8 @@ class Proto:
                 return [vset(st, l, val)]
             return [st]
         l = pl['l']
+        if rv['k'] == 'agg' and rv.get('adt') == 'core::task::poll::Poll' and rv.get('variant') == 'Pending':
+            st = st._replace(act=st.act | 8)         # Poll::Pending built in this function
         if rv['k'] == 'agg' and rv.get('adt') == ACTIVE_QUEUE and record:
             self.events[('guard_new', self._evn(fn), '')].add(st.T)
         val = self._rvalue_val(fn, st, rv, bb, i, record)
@@ -816,6 +822,7 @@ class Proto:
             self.events[('exit', self._evn(fn), '')].add((st.T, ret))
             self.events[('exit_pan', self._evn(fn), '')].add((st.pan, ret))
             self.events[('exit_act', self._evn(fn), '')].add((st.pre, st.act))
+            self.events[('exit_reg', self._evn(fn), '')].add((ret, st.act & 4, st.act & 8))
 
     def _switch(self, fn, bb, t, st):
         d = t['discr']
